@@ -13,6 +13,11 @@ package keysutil
 //   - random bytes: arbitrary.
 //
 //vx:pkg github.com/openbao/openbao/sdk/v2/helper/keysutil
+//vx:assume AEAD (AES-GCM, ChaCha20-Poly1305, XChaCha20-Poly1305) is ideal: fresh collision-free ciphertext bodies, deterministic in (key, nonce, aad, plaintext); Open succeeds only on what Seal produced under the same key, nonce and aad
+//vx:assume HKDF / counter-mode KDF / HMAC-SHA256 are collision-free random oracles
+//vx:assume base64 is modelled as the identity on byte strings; random draws of at least 96 bits never collide
+//vx:assume the legacy counter-mode KDF only occurs with AES-256 policies
+//vx:assume bounds: plaintext/context/aad lengths and key versions as listed under coverage.bounds; version field of forged ciphertexts 1-2 arbitrary bytes, forged body arbitrary bytes of the genuine length
 //vx:bodies io,encoding/base64
 //vx:redirect crypto/aes.NewCipher vxAESNewCipher
 //vx:redirect crypto/cipher.NewGCM vxNewGCM
